@@ -1,8 +1,8 @@
 package main
 
 import (
-	"go/types"
 	"fmt"
+	"go/types"
 	"strings"
 
 	"golang.org/x/tools/go/ssa"
@@ -495,7 +495,6 @@ func c16Uncommitted(c *Check) {
 		}
 	}
 }
-
 
 func c16SnapshotExit(c *Check) {
 	p := c.P
